@@ -806,7 +806,7 @@ func c19Tables(c *c19Case, obs *c19Obs) {
 			if abs, err := repo.ResolveReferenceURL(rp.URL, rp.URLs[0]); err == nil {
 				obs.Tab["lookup:"+rp.Name+"|a|"] = abs
 			}
-			if n, err := downloader.VerifNormalizeURL(c19DepRepoURL(c), rp.URLs[0]); err == nil {
+			if n, err := downloader.VerifNormalizeURL(c19DepRepoURL(c), rp.URLs[0]); err == nil && c.Kind == "manager" {
 				obs.Tab["dep:"+rp.Name+"|a|1.0.0"] = n
 				add(n)
 			}
@@ -940,6 +940,39 @@ func c19Sources(c *c19Case) []c19Source {
 	return out
 }
 
+// the hypotheses of C19_paths_scope about library code, checked on the URLs of the case
+func c19CheckHyps(obs *c19Obs, flag func(sig, what string)) {
+	same := func(a, b *url.URL) bool { return a.Scheme == b.Scheme && a.Host == b.Host }
+	for s := range obs.Parse {
+		u, err := url.Parse(s)
+		if err != nil {
+			continue
+		}
+		if v, err := url.Parse(u.String()); err != nil || !same(u, v) {
+			flag("hyp-url-string-roundtrip", fmt.Sprintf("url.Parse(%q).String() does not re-parse to the same scheme and host", s))
+		}
+		if u.Path != "" {
+			if v, err := url.Parse(u.String() + ".prov"); err != nil || !same(u, v) {
+				flag("hyp-url-prov-suffix", fmt.Sprintf("%q + \".prov\" does not parse to the same scheme and host", u.String()))
+			}
+		}
+	}
+	for _, p := range obs.Equal {
+		a, e1 := url.Parse(p[0])
+		b, e2 := url.Parse(p[1])
+		if e1 == nil && (e2 != nil || !same(a, b)) {
+			flag("hyp-urlutil-equal", fmt.Sprintf("urlutil.Equal(%q, %q) although scheme or host differ", p[0], p[1]))
+		}
+	}
+	for k, v := range obs.Tab {
+		if strings.HasPrefix(k, "find:") || strings.HasPrefix(k, "dep:") {
+			if u, err := url.Parse(v); err == nil && (u.Scheme == "" || u.Host == "" || u.Path == "") {
+				flag("hyp-absolute-chart-url", fmt.Sprintf("%s resolved to %q, which is not an absolute URL with host and path", k, v))
+			}
+		}
+	}
+}
+
 func (*c19) Oracle(ci, oi any) []hx.Violation {
 	c, obs := ci.(c19Case), oi.(c19Obs)
 	if obs.Panic != "" {
@@ -949,6 +982,7 @@ func (*c19) Oracle(ci, oi any) []hx.Violation {
 	flag := func(sig, what string) {
 		vs = append(vs, hx.Violation{Sig: "C19:" + sig, What: what})
 	}
+	c19CheckHyps(&obs, flag)
 	if c.Kind == "getter" {
 		// replay of the option lists: the pair in force when each Get was made
 		cur := struct {
